@@ -33,7 +33,7 @@ TEXP = "ast2logic.t_expression.translate_expression"
 
 def run(ctx: Ctx):
     an = fx.effects(ctx)
-    memo.check_memo_keys(ctx, ("ast2logic.", "qlassfun.", "boolopt."))
+    memo.check_memo_keys(ctx, ('ast2logic.', 'qlassfun.QlassF.to_logicfun', 'qlassfun.QlassF.from_function', 'qlassfun.qlassf', 'boolopt.', 'algorithms.qalgorithm'))
     repo = ctx.repo
     tl = repo.func("qlassfun.QlassF.to_logicfun")
     # whether the result is a fresh copy is informational: what the property needs is that nothing reachable from
